@@ -38,10 +38,16 @@ class Auth(object):
         self.token = rng('token', self.dev.env.sessions, self.ntok).randbytes(20)
         return self.token
 
+    STRAYS = ((b'OKAY', 0x999, 0x77, b''), (b'WRTE', 0x999, 0x77, b'stale data'), (b'CLSE', 0x999, 0x77, b''))
+
     def strays(self):
-        """Stray packets of dead streams that precede the awaited reply."""
-        for st in self.spec.get('strays', ())[self.stray_i:self.stray_i + self.spec.get('strays_per_reply', 0)]:
-            self.dev.enqueue(self.dev.conn_q, Packet(st[0], st[1], st[2], st[3] if len(st) > 3 else b''))
+        """Stray packets of dead streams that precede the awaited reply (a budgeted choice)."""
+        if not self.spec.get('strays'):
+            return
+        n = self.ch.choose('stray', 3, (0, 1, 2))
+        for _ in range(n):
+            st = self.STRAYS[self.stray_i % 3]
+            self.dev.enqueue(self.dev.conn_q, Packet(st[0], st[1], st[2], st[3]))
             self.stray_i += 1
 
     def answer(self, what, delay=0.0):
